@@ -1,6 +1,6 @@
 @unit cw1subkeys
-@shim core.rs cw_utils.rs cw2.rs std_adapters.rs
-@properties C07 C08 C16 C17
+@shim core.rs cw_utils.rs cw2.rs std_adapters.rs range.rs
+@properties C07 C08 C16 C17 C20
 
 pub mod cw1_whitelist {
 use super::*;
@@ -519,3 +519,108 @@ pub proof fn lemma_c17_step(s: Raw, t: Raw, sender: Seq<char>, b: &BlockInfo, ms
         _ => {}
     }
 }
+
+// ===================================================================== C20: listings of cw1-subkeys
+@struct contracts/cw1-subkeys/src/msg.rs AllAllowancesResponse
+@struct contracts/cw1-subkeys/src/msg.rs AllowanceInfo
+@struct contracts/cw1-subkeys/src/msg.rs AllPermissionsResponse
+@struct contracts/cw1-subkeys/src/msg.rs PermissionsInfo
+@const contracts/cw1-subkeys/src/contract.rs MAX_LIMIT
+@const contracts/cw1-subkeys/src/contract.rs DEFAULT_LIMIT
+@include inc/paging.vsi
+pub open spec fn str_cursor(c: Option<String>) -> Option<Seq<u8>> { match c { Some(s) => Some(utf8(s@)), None => None } }
+
+@fn contracts/cw1-subkeys/src/contract.rs calc_limit
+@ensures C20.calc_limit
+    r as int == page_limit(request)
+@end
+
+/// a stored allowance entry is live (listed) unless it parses and has expired at the query block
+pub open spec fn live_at(b: BlockInfo) -> spec_fn(Entry) -> bool {
+    |e: Entry| match Allowance::de(e.1) { Some(a) => (forall|k: Addr| #[trigger] utf8(k@) != e.0) || !a.expires.expired(&b), None => true }
+}
+pub open spec fn item_live(x: StdResult<(Addr, Allowance)>, b: BlockInfo) -> bool {
+    match x { Ok((_, a)) => !a.expires.expired(&b), Err(_) => true }
+}
+
+@fn contracts/cw1-subkeys/src/contract.rs query_all_allowances [closures: 4]
+@ensures C20.all_allowances_page
+    r is Ok ==> ({
+        let pg = page_f(listing(deps.storage.view(), "allowances"@, Seq::<u8>::empty(), false), str_cursor(start_after), limit, live_at(env.block));
+        r->Ok_0.allowances@.len() == pg.len() && forall|i: int| 0 <= i < pg.len() ==> utf8((#[trigger] r->Ok_0.allowances@[i]).spender@) == pg[i].0
+            && Allowance::de(pg[i].1) == Some(Allowance { balance: r->Ok_0.allowances@[i].balance, expires: r->Ok_0.allowances@[i].expires })
+            && !r->Ok_0.allowances@[i].expires.expired(&env.block)
+    })
+@closure_types 1
+    s: String
+@closure 1 C20.all_allowances_cursor
+    (res: Bound<&Addr>)
+    ensures res.raw() == (utf8(s@), false)
+@closure_types 2
+    item: &StdResult<(Addr, Allowance)>
+@closure 2 C20.all_allowances_filter
+    (res: bool)
+    ensures res == item_live(*item, env.block)
+@closure_types 3
+    item: StdResult<(Addr, Allowance)>
+@closure 3 C20.all_allowances_map
+    (res: StdResult<AllowanceInfo>)
+    ensures match item { Ok((a, w)) => res is Ok && res->Ok_0.spender@ == a@ && res->Ok_0.balance == w.balance && res->Ok_0.expires == w.expires, Err(_) => res is Err }
+@closure_types 4
+    __p4_0: (Addr, Allowance)
+@closure 4 C20.all_allowances_entry
+    (res: AllowanceInfo)
+    ensures res.spender@ == __p4_0.0@ && res.balance == __p4_0.1.balance && res.expires == __p4_0.1.expires
+@split_before ".take(limit)" 1
+    proof {
+        let sel = scan(listing(deps.storage.view(), "allowances"@, Seq::<u8>::empty(), false), match cur { Some(c) => Some((c, false)), None => None }, None, Order::Ascending);
+        let kb = |o: Addr| <&Addr as KeyOut>::out_kb(o);
+        // the unnamed intermediate results of the chain: the ranged items and the predicate the filter closure computes
+        assert(exists|items0: Seq<StdResult<(Addr, Allowance)>>, p: spec_fn(StdResult<(Addr, Allowance)>) -> bool|
+            #![trigger typed_items(items0, sel, kb), keep(items0, p)]
+            typed_items(items0, sel, kb) && __s1.items@ == keep(items0, p)
+            && forall|i: int| 0 <= i < items0.len() ==> #[trigger] p(items0[i]) == item_live(items0[i], env.block));
+        let (items0, p) = choose|items0: Seq<StdResult<(Addr, Allowance)>>, p: spec_fn(StdResult<(Addr, Allowance)>) -> bool|
+            #![trigger typed_items(items0, sel, kb), keep(items0, p)]
+            typed_items(items0, sel, kb) && __s1.items@ == keep(items0, p)
+            && forall|i: int| 0 <= i < items0.len() ==> #[trigger] p(items0[i]) == item_live(items0[i], env.block);
+        assert forall|i: int| 0 <= i < items0.len() implies p(#[trigger] items0[i]) == live_at(env.block)(sel[i]) by {
+            match items0[i] {
+                Ok((k, v)) => { assert(kb(k) == sel[i].0); assert(utf8(k@) == sel[i].0); },
+                Err(_) => { if Allowance::de(sel[i].1) is Some { assert forall|k: Addr| #[trigger] utf8(k@) != sel[i].0 by { assert(kb(k) == utf8(k@)); } } },
+            }
+        }
+        lemma_keep_typed(items0, sel, kb, p, live_at(env.block));
+        lemma_keep_sat(sel, live_at(env.block));
+        assert(typed_items(__s1.items@, keep(sel, live_at(env.block)), kb));
+    }
+@prefix
+    broadcast use string_conv, ax_bytes_from_string;
+    let ghost cur = str_cursor(start_after);
+@end
+
+@fn contracts/cw1-subkeys/src/contract.rs query_all_permissions [closures: 3]
+@ensures C20.all_permissions_page
+    r is Ok ==> ({
+        let pg = page(listing(deps.storage.view(), "permissions"@, Seq::<u8>::empty(), false), str_cursor(start_after), limit);
+        r->Ok_0.permissions@.len() == pg.len() && forall|i: int| 0 <= i < pg.len() ==> utf8((#[trigger] r->Ok_0.permissions@[i]).spender@) == pg[i].0
+            && Permissions::de(pg[i].1) == Some(r->Ok_0.permissions@[i].permissions)
+    })
+@closure_types 1
+    s: String
+@closure 1 C20.all_permissions_cursor
+    (res: Bound<&Addr>)
+    ensures res.raw() == (utf8(s@), false)
+@closure_types 2
+    item: StdResult<(Addr, Permissions)>
+@closure 2 C20.all_permissions_map
+    (res: StdResult<PermissionsInfo>)
+    ensures match item { Ok((a, w)) => res is Ok && res->Ok_0.spender@ == a@ && res->Ok_0.permissions == w, Err(_) => res is Err }
+@closure_types 3
+    __p3_0: (Addr, Permissions)
+@closure 3 C20.all_permissions_entry
+    (res: PermissionsInfo)
+    ensures res.spender@ == __p3_0.0@ && res.permissions == __p3_0.1
+@prefix
+    broadcast use string_conv, ax_bytes_from_string;
+@end
